@@ -1,9 +1,11 @@
 //! vharness <prop> gen <seed> <tier> <outfile> [corpus files...]   — generate cases, run the implementation
 //! vharness <prop> replay <file>                                   — re-run the cases of a file, print lines
 mod common;
+mod c10;
 mod c11;
 mod c12;
 mod c13;
+mod c17;
 mod c18;
 mod c19;
 
@@ -13,16 +15,19 @@ use std::io::{BufRead, BufWriter, Write};
 struct Prop {
   id: &'static str,
   exec: ExecFn,
+  classify: ClassifyFn,
   gen: fn(&mut Rng, bool, &mut Sink),
 }
 
 fn props() -> Vec<Prop> {
   vec![
-    Prop { id: "C11", exec: c11::exec, gen: c11::gen },
-    Prop { id: "C12", exec: c12::exec, gen: c12::gen },
-    Prop { id: "C13", exec: c13::exec, gen: c13::gen },
-    Prop { id: "C18", exec: c18::exec, gen: c18::gen },
-    Prop { id: "C19", exec: c19::exec, gen: c19::gen },
+    Prop { id: "C10", exec: c10::exec, classify: c10::classify, gen: c10::gen },
+    Prop { id: "C11", exec: c11::exec, classify: no_class, gen: c11::gen },
+    Prop { id: "C12", exec: c12::exec, classify: no_class, gen: c12::gen },
+    Prop { id: "C13", exec: c13::exec, classify: no_class, gen: c13::gen },
+    Prop { id: "C17", exec: c17::exec, classify: no_class, gen: c17::gen },
+    Prop { id: "C18", exec: c18::exec, classify: no_class, gen: c18::gen },
+    Prop { id: "C19", exec: c19::exec, classify: no_class, gen: c19::gen },
   ]
 }
 
@@ -50,7 +55,7 @@ fn main() {
       let out = args.get(5).expect("outfile");
       let f = std::fs::File::create(out).expect("create outfile");
       let mut w = BufWriter::new(f);
-      let mut sink = Sink { prop: prop.id, out: &mut w, exec: prop.exec, count: 0 };
+      let mut sink = Sink { prop: prop.id, out: &mut w, exec: prop.exec, classify: prop.classify, count: 0 };
       for cf in args.iter().skip(6) {
         if let Ok(fh) = std::fs::File::open(cf) {
           for line in std::io::BufReader::new(fh).lines().flatten() {
@@ -68,7 +73,7 @@ fn main() {
       let fh = std::fs::File::open(&args[3]).expect("open replay file");
       let stdout = std::io::stdout();
       let mut w = stdout.lock();
-      let mut sink = Sink { prop: prop.id, out: &mut w, exec: prop.exec, count: 0 };
+      let mut sink = Sink { prop: prop.id, out: &mut w, exec: prop.exec, classify: prop.classify, count: 0 };
       for line in std::io::BufReader::new(fh).lines().flatten() {
         if let Some((ints, c)) = parse_case_line(&line) { sink.case(ints, &c); }
       }
